@@ -1014,10 +1014,11 @@ MUTANTS = [
      (FM, "        t = np.hstack((self.t, other.t + self.p.shape[1]))",
       "        t = np.hstack((self.t, other.t))"), "C18-R3"),
     ("join: points stacked in the other order",
-     (FM, "        p = np.hstack((self.p.round(decimals=8),\n"
-      "                       other.p.round(decimals=8)))",
-      "        p = np.hstack((other.p.round(decimals=8),\n"
-      "                       self.p.round(decimals=8)))"), "C18-R3"),
+     (FM, "        p = np.hstack((self.p, other.p))\n        t = np.hstack(("
+      "self.t, other.t + self.p.shape[1]))\n        # vertices agreeing",
+      "        p = np.hstack((other.p, self.p))\n        t = np.hstack(("
+      "self.t, other.t + self.p.shape[1]))\n        # vertices agreeing"),
+     "C18-R3"),
     ("restrict maps subdomains without intersecting with the kept cells",
      (FM, "                k: newt[np.intersect1d(self.subdomains[k],\n"
       "                                       elements).astype(np.int32)]",
